@@ -40,9 +40,11 @@ PROPS["C11"] = dict(
         J("c11_rt_enterprise", bound="kind enterprise; net<16; both credential kinds; all hash bytes", encodes=["Address::from_bytes", "EnterpriseAddress::from_address"], unwind_fn=HL, mem_gb=10, timeout_s=900),
         J("c11_enc_reward", bound="kind reward; net<16; both credential kinds; all hash bytes", encodes=["Address::to_bytes", "kind", "network_id", "payment_cred"], unwind_fn=HL, mem_gb=10),
         J("c11_rt_reward", bound="kind reward; net<16; both credential kinds; all hash bytes", encodes=["Address::from_bytes", "RewardAddress::from_address"], unwind_fn=HL, mem_gb=10, timeout_s=900),
-        J("c11_pointer_rt_slot", bound="slot natural: all u64, the other two fixed", encodes=["variable_nat_encode", "variable_nat_decode", "Address::decode_pointer", "PointerAddress"], unwind_fn=HL, mem_gb=16, timeout_s=1500),
-        J("c11_pointer_rt_tx", bound="tx natural: all u64, the other two fixed", encodes=["variable_nat_encode", "variable_nat_decode", "Address::decode_pointer", "PointerAddress"], unwind_fn=HL, mem_gb=16, timeout_s=1500),
-        J("c11_pointer_rt_cert", bound="cert natural: all u64, the other two fixed", encodes=["variable_nat_encode", "variable_nat_decode", "Address::decode_pointer", "PointerAddress"], unwind_fn=HL, mem_gb=16, timeout_s=1500),
+        J("c11_pointer_enc_slot", bound="slot natural: all u64, the other two fixed", encodes=["variable_nat_encode", "Address::to_bytes(pointer)"], unwind_fn=HL, mem_gb=12, timeout_s=1200),
+        J("c11_pointer_enc_tx", bound="tx natural: all u64, the other two fixed", encodes=["variable_nat_encode", "Address::to_bytes(pointer)"], unwind_fn=HL, mem_gb=12, timeout_s=1200),
+        J("c11_pointer_enc_cert", bound="cert natural: all u64, the other two fixed", encodes=["variable_nat_encode", "Address::to_bytes(pointer)"], unwind_fn=HL, mem_gb=12, timeout_s=1200),
+        J("c11_ref_varnat_inverse", bound="all u64 (harness-side lemma: reference decoder inverts reference encoder)", encodes=[], unwind_fn=HL),
+        J("c11_strict_parse_ptr_long", bound="pointer header + 28-byte hash + every 12-byte tail", encodes=["variable_nat_decode", "Address::decode_pointer", "Address::from_bytes_internal_impl(strict)"], unwind_fn=HL, mem_gb=14, timeout_s=1500),
         J("c11_strict_parse_short", bound="every byte string of length 0..34, header != Byron", encodes=["Address::from_bytes_internal_impl(strict)"], unwind_fn=HL, timeout_s=1800, mem_gb=16),
         J("c11_strict_parse_base", bound="length 55..60, header nibble 0..3", encodes=["Address::from_bytes_internal_impl(strict)"], unwind_fn=HL, timeout_s=1800, mem_gb=16),
         J("c11_embedded_verbatim_short", bound="carried byte string of length 0..34", encodes=["Address::deserialize", "from_bytes_impl_unsafe"], unwind_fn=HL, timeout_s=1800, mem_gb=16),
@@ -67,3 +69,29 @@ PROPS["C20"] = dict(
     e1=[],
     e2=["c20"],
 )
+
+PROPS["C07"] = dict(
+    bounds="min-ADA: coin and coins_per_byte over all u64, size of the rest of the output K over 1..2^32 (all shapes at once through the size lemma); "
+           "admission and size gates: every size, limit and amount over its full range",
+    assumptions=["size lemma len(output.to_bytes()) = K + head(coin) with K independent of the coin: established by the C03 E1 harnesses (to_bytes == reference bytes for every coin)",
+                 "change outputs / collateral return are covered only through the functions they call (min_ada_for_output, add_output); the balancing loop itself is outside the bound"],
+    e1=[],
+    e2=["c07"],
+)
+PROPS["C05"] = dict(
+    bounds="arbitrary builder state (lazy initialisation) for the gate; accounting getters over 1-3 stored items; every amount over all u64; one arbitrary asset (pointwise abstraction)",
+    assumptions=["Value operations act pointwise as stated in mir2smt/valuemodel.py (summaries established by the C14 E1 harnesses)",
+                 "claim is for transactions released through build_tx (build()/build_tx_unsafe() have no gate); the change-splitting code itself is not executed: a bug there makes build_tx fail, which the property permits",
+                 "callees named in each obligation are uninterpreted pure functions of the (unmodified) builder"],
+    e1=[],
+    e2=["c05"],
+)
+
+PROPS["C06"] = dict(
+    bounds="arbitrary builder state (lazy initialisation); every fee, size and amount over its full machine range; every address and credential kind for input recording; 8 reference-script sources",
+    assumptions=["fee functions themselves are C15's obligations, signer counting C18's; callees named in each obligation are stubs with arbitrary results",
+                 "claim is for transactions released through build_tx; the iterative fee/change fixed point in add_change_if_needed is not executed (a wrong estimate is caught by validate_fee)"],
+    e1=[],
+    e2=["c06", "c05"],
+)
+PROPS["C05"]["e2"] = ["c05", "c20", "c06"]
